@@ -72,14 +72,14 @@ type Scenario struct {
 	Transient   []int          `json:"transient,omitempty"`       // these accept / datagram-read attempts fail with a temporary, non-timeout error
 	UDPSock     bool           `json:"udp_sock,omitempty"`        // udp: the server runs on a UDP socket (SessionUDP branch) where the build has that seam
 	PostYield   bool           `json:"post_yield,omitempty"`
-	Pace        int            `json:"pace_ms,omitempty"`       // tcp: the server keeps its default timeouts (2 s for the first message of a connection, 8 s idle between messages) and every peer pauses this long before each frame after its first: long-lived connections, each message well inside the idle timeout
-	Anonymous   bool           `json:"anonymous,omitempty"`     // udp: the socket is of a kind whose peers have no address (unixgram, unbound clients): reads report none, replies cannot be routed - they are collected where the socket refuses them
+	Pace        int            `json:"pace_ms,omitempty"`         // tcp: the server keeps its default timeouts (2 s for the first message of a connection, 8 s idle between messages) and every peer pauses this long before each frame after its first: long-lived connections, each message well inside the idle timeout
+	Anonymous   bool           `json:"anonymous,omitempty"`       // udp: the socket is of a kind whose peers have no address (unixgram, unbound clients): reads report none, replies cannot be routed - they are collected where the socket refuses them
 	MaxTCPQ     int            `json:"max_tcp_queries,omitempty"` // tcp: the server serves this many messages per connection (0: unlimited); what lies behind them in the stream is not read
 	OwnReader   bool           `json:"own_reader,omitempty"`      // tcp: a DecorateReader product that does the framing of stream messages itself
 	WriteFailAt int            `json:"write_fail_at,omitempty"`   // tcp, one peer: the n-th write on the server's side of its connection fails (nothing goes out); the server carries on - one reply is lost, none is wrong
-	Again       bool           `json:"again,omitempty"`         // udp: when the server has been shut down it is given a larger UDPSize and a new socket and started again; the peers then send queries padded beyond the old size (and within the new one): a second life of the same Server value
-	Async       bool           `json:"async,omitempty"`         // tcp: the handler answers every other accepted request from a task of its own, after it has returned (the server is reading - and rejecting - the messages behind it meanwhile); peers read what they are sent
-	FinWithData bool           `json:"fin_with_data,omitempty"` // tcp: peers end their sending right behind their last frame, and the read that returns the last octets returns io.EOF with them      // the return of every transport operation is a scheduling point of its own
+	Again       bool           `json:"again,omitempty"`           // udp: when the server has been shut down it is given a larger UDPSize and a new socket and started again; the peers then send queries padded beyond the old size (and within the new one): a second life of the same Server value
+	Async       bool           `json:"async,omitempty"`           // tcp: the handler answers every other accepted request from a task of its own, after it has returned (the server is reading - and rejecting - the messages behind it meanwhile); peers read what they are sent
+	FinWithData bool           `json:"fin_with_data,omitempty"`   // tcp: peers end their sending right behind their last frame, and the read that returns the last octets returns io.EOF with them      // the return of every transport operation is a scheduling point of its own
 	Msgs        []InMsg        `json:"msgs,omitempty"`
 	Initial     map[string]int `json:"initial,omitempty"` // mux: patterns registered before the tasks start
 	Ops         []MuxOp        `json:"ops,omitempty"`
